@@ -27,6 +27,8 @@ enum Faults {
     FirstN(i64),
     Random(u32),
     All,
+    AllEagain,
+    FirstNEagain(i64),
     MprotectFails,
 }
 #[derive(Clone, Debug)]
@@ -63,7 +65,7 @@ fn gen(ctx: &Ctx) -> Vec<Case> {
             }
         }
         // fault plans on an empty neighbourhood and with a single hole
-        for &f in &[Faults::FirstN(1), Faults::FirstN(7), Faults::Random(128), Faults::All, Faults::MprotectFails] {
+        for &f in &[Faults::FirstN(1), Faults::FirstN(7), Faults::Random(128), Faults::All, Faults::AllEagain, Faults::FirstNEagain(5), Faults::MprotectFails] {
             v.push(Case { base, pgoff: 0x100, layout: Layout::Empty, faults: f, region: name });
         }
         v.push(Case { base, pgoff: 0x100, layout: Layout::HoleAt(rng.range(-32000, 32000)), faults: Faults::FirstN(3), region: name });
@@ -104,6 +106,8 @@ fn class_of(c: &Case) -> String {
         Faults::FirstN(_) => "first-n-mmaps-fail",
         Faults::Random(_) => "random-mmaps-fail",
         Faults::All => "all-mmaps-fail",
+        Faults::AllEagain => "all-mmaps-fail-with-EAGAIN",
+        Faults::FirstNEagain(_) => "first-n-mmaps-fail-with-EAGAIN",
         Faults::MprotectFails => "mprotect-fails",
     };
     format!("{}/{}/{}/{}", c.region, if c.pgoff == 0 { "aligned" } else { "unaligned" }, l, f)
@@ -223,8 +227,19 @@ fn one(idx: u64, c: &Case, floor: usize, lowest: usize, attempts: &mut Vec<u64>,
         Faults::FirstN(n) => ip::arm_fail_range(ip::K_MMAP_EXEC, 0, n),
         Faults::Random(p) => ip::arm_fail_random(ip::K_MMAP_EXEC, p, idx ^ 0xFA17),
         Faults::All => ip::arm_fail_range(ip::K_MMAP_EXEC, 0, i64::MAX),
+        Faults::AllEagain => {
+            ip::FAIL_ERRNO.store(libc::EAGAIN as i64, std::sync::atomic::Ordering::SeqCst);
+            ip::arm_fail_range(ip::K_MMAP_EXEC, 0, i64::MAX)
+        }
+        Faults::FirstNEagain(n) => {
+            ip::FAIL_ERRNO.store(libc::EAGAIN as i64, std::sync::atomic::Ordering::SeqCst);
+            ip::arm_fail_range(ip::K_MMAP_EXEC, 0, n)
+        }
         Faults::MprotectFails => ip::arm_fail_range(ip::K_MPROTECT, 0, i64::MAX),
     }
+    // bounded progress: the window has 65 537 pages; a search that makes more than 16 x that many attempts
+    // for one installation does not terminate (the interposer then writes this outcome and ends the child)
+    ip::arm_attempt_cap(16 * 65_537, &J::new().s("t", "outcome").n("i", idx).s("class", &class_of(c)).s("verdict", "violated").s("sig", "placement-search-does-not-terminate").raw("detail", &J::new().s("case", &format!("{:?}", c)).done()).done());
     let led0 = ip::ledger_snapshot();
     let exec0 = ip::N_MMAP_EXEC.load(std::sync::atomic::Ordering::SeqCst);
     let ok0 = ip::N_MMAP_EXEC_OK.load(std::sync::atomic::Ordering::SeqCst);
@@ -236,6 +251,8 @@ fn one(idx: u64, c: &Case, floor: usize, lowest: usize, attempts: &mut Vec<u64>,
         inj
     });
     ip::disarm_all();
+    ip::disarm_attempt_cap();
+    ip::FAIL_ERRNO.store(libc::ENOMEM as i64, std::sync::atomic::Ordering::SeqCst);
     let tried = ip::N_MMAP_EXEC.load(std::sync::atomic::Ordering::SeqCst) - exec0;
     let got = ip::N_MMAP_EXEC_OK.load(std::sync::atomic::Ordering::SeqCst) - ok0;
     attempts.push(tried);
